@@ -14,7 +14,7 @@ def readFields {σ : Type} (p : Path) (h : Bytes → Option (σ → Bytes → Re
     (readMapKey p b).bind fun k b1 =>
       match h k with
       | some f => (f s b1).bind fun s' b2 => readFields p h n s' b2
-      | none => (skip b1).bind fun _ b2 => readFields p h n s b2
+      | none => (skipP p b1).bind fun _ b2 => readFields p h n s b2
 
 /-- `case "size"`: nil → `Size = nil`, else `ReadInt` -/
 def Options.sizeField (o : Options) (b : Bytes) : Res Options :=
